@@ -112,27 +112,27 @@ def parseSyls : List Text → Except LineErr (List Nat)
         | .ok vs => .ok (v :: vs)
         | .error e => .error e
 
+/-- the frequency of `parse_line`: `fs` are the non-empty delimiter-separated fields -/
+def parseFreq (keep : Bool) (phrase : Text) (fs : List Text) : Except LineErr Nat :=
+  if phrase.length == cliWordLen && !keep then .ok cliWordFreq
+  else match fs[cliFreqField]? with
+    | none => .error .noFreq
+    | some f1 =>
+      match parseU32 (trimQ f1) with
+      | some n => .ok n
+      | none => .error .badFreq
+
 /-- `parse_line(_, delimiter, line, keep_word_freq)` -/
 def parseLine (delim : Nat) (keep : Bool) (line : Text) : Except LineErr Rec :=
-  let fs := tokens (· == delim) line
-  match fs[0]? with
-  | none => .error .noPhrase
-  | some f0 =>
-    let phrase := trimQ f0
-    let freqR : Except LineErr Nat :=
-      if phrase.length == cliWordLen && !keep then .ok cliWordFreq
-      else match fs[cliFreqField]? with
-        | none => .error .noFreq
-        | some f1 =>
-          match parseU32 (trimQ f1) with
-          | some n => .ok n
-          | none => .error .badFreq
-    match freqR with
+  match tokens (· == delim) line with
+  | [] => .error .noPhrase
+  | f0 :: fs =>
+    match parseFreq keep (trimQ f0) (f0 :: fs) with
     | .error e => .error e
     | .ok freq =>
       match parseSyls ((tokens sylSep line).drop cliSylSkip) with
       | .error e => .error e
-      | .ok syls => .ok { phrase := phrase, freq := freq, syls := syls }
+      | .ok syls => .ok { phrase := trimQ f0, freq := freq, syls := syls }
 
 /-! ### files -/
 
@@ -166,11 +166,10 @@ def Flags.delim (f : Flags) : Nat := if f.csv then cliCsvDelim else cliSsvDelim
 def parseAll (f : Flags) : Nat → List Text → List Rec × List (Nat × LineErr)
   | _, [] => ([], [])
   | idx, l :: ls =>
-    let (rs, es) := parseAll f (idx + 1) ls
-    if f.csv && idx == cliCsvHeaderLine then (rs, es)
+    if f.csv && idx == cliCsvHeaderLine then parseAll f (idx + 1) ls
     else match parseLine f.delim f.keep l with
-      | .ok r => (r :: rs, es)
-      | .error e => (rs, (idx, e) :: es)
+      | .ok r => (r :: (parseAll f (idx + 1) ls).1, (parseAll f (idx + 1) ls).2)
+      | .error e => ((parseAll f (idx + 1) ls).1, (idx, e) :: (parseAll f (idx + 1) ls).2)
 
 structure CompileResult where
   /-- `Parsing failed at line N` messages: N and the cause -/
@@ -181,9 +180,8 @@ deriving Repr, DecidableEq
 
 /-- `init_database::run` up to `builder.build` -/
 def compileRun (f : Flags) (src : List Text) : CompileResult :=
-  let (rs, es) := parseAll f 0 src
-  { reported := es.map (fun e => (e.1 + cliLineBase, e.2)),
-    inserted := if !es.isEmpty && !f.skip then none else some rs }
+  { reported := (parseAll f 0 src).2.map (fun e => (e.1 + cliLineBase, e.2)),
+    inserted := if !(parseAll f 0 src).2.isEmpty && !f.skip then none else some (parseAll f 0 src).1 }
 
 /-- the same as an `Except`: the reported lines if the tool exits with status 1 -/
 def compile (f : Flags) (src : List Text) : Except (List (Nat × LineErr)) (List Rec) :=
